@@ -88,8 +88,18 @@ class Emitter:
             return oid
         if k == "dtc":
             oid, name = self.uid("DTC")
+            codes = list(d["codes"])
+            own, inherited = (codes[:-1], codes[-1:]) if len(codes) > 1 else (codes, [])
+            linked = []
+            if inherited:
+                # the last code is inherited from a linked DTC-DOP, which also defines one that is explicitly not inherited
+                lid, lname = self.uid("DTC")
+                hidden = max(codes) - 1 if max(codes) - 1 not in codes and max(codes) > 1 else max(codes) + 1
+                self.layer.dtc_dops.append(og.dtc_dop(lid, lname, self.dct(d["dct"], key_ids),
+                                                      [(f"{lid}.{c}", f"P{c:06X}", c, f"fault {c}") for c in inherited + [hidden]]))
+                linked = [(lid, [f"P{hidden:06X}"])]
             self.layer.dtc_dops.append(og.dtc_dop(oid, name, self.dct(d["dct"], key_ids),
-                                                  [(f"{oid}.{c}", f"P{c:06X}", c, f"fault {c}") for c in d["codes"]]))
+                                                  [(f"{oid}.{c}", f"P{c:06X}", c, f"fault {c}") for c in own], linked=linked))
             return oid
         if k == "struct":
             oid, name = self.uid("ST")
